@@ -11,8 +11,16 @@ by the guarded-merge interpreter lib/astsym with a SYMBOLIC argument n in [1, N]
                             perfect/imperfect loops up to length 3 (quick) / 4 (thorough)
 `math.ceil(n**0.5)` is modelled as the integer r with (r-1)^2 < n <= r^2 and `math.ceil(a/b)` as the
 integer c with (c-1)*b < a <= c*b (exact for operands < 2^52).
-The candidate generator get_possible_factor_sizes itself (coarseness filter, the imperfect admit
-loop over Python sets) is NOT encoded; it is swept concretely against brute force as validation."""
+The candidate generator get_possible_factor_sizes itself is encoded too (coarseness 1): its nested
+_try_admit closure, the Python sets `factors` / `n_tiles` (guarded collections with `in`, `add`),
+round(), the while loop with a symbolic trip count, sorted() over a guarded set and the call into
+_factorize (interpreted from its current source) — symbolic outer size n (a multiple of the concrete
+inner size), both imperfect modes:
+   perfect    member(x) <=> inner | x and x | n
+   imperfect  for every multiple s of inner up to n the smallest shape giving ceil(n/s) tiles is a
+              member, n is a member, every member is <= n
+ceil(a/b) with a symbolic divisor is linearised over the divisor's bounded domain.  A concrete sweep
+of the same function against brute force remains as validation (coarseness 1, inner | outer)."""
 from __future__ import annotations
 
 import inspect
@@ -128,6 +136,71 @@ def shard(payload):
             if not bad:
                 raise HarnessError(f"{kind} model does not reproduce at n={nv}: {got}")
             viol.append(dict(property=PID, function=kind, n=nv, got=got, expected=exp, what=f"{kind}({nv}) returns {got}, expected {'a superset of ' if kind == '_factorize_imperfect' else ''}{exp}"))
+    elif kind == "gpfs":
+        imperfect, inner = arg
+        f = MT.get_possible_factor_sizes
+        n = z3.Int("n")
+        dom = [n >= 1, n <= N, n % inner == 0]
+        solver = z3.Solver()
+        solver.add(dom)
+        it = I.Interp(src_of(f), {"np": I.NP, "math": I.MATH, "range": I._range}, solver)
+        it.unwind_cap = N + 2
+        it.int_bound = N
+        it.functions = {}
+        it.module_globals = vars(MT)       # _factorize is interpreted from its current source when called
+        it.run({"outer_size": n, "imperfect": imperfect, "inner_size": inner})
+        res = it.retval
+        if not isinstance(res, I.GList):
+            raise HarnessError(f"get_possible_factor_sizes: unexpected result {type(res).__name__}")
+        st.encode_s += time.time() - t0
+        s = z3.Solver()
+        s.add(dom)
+        s.add(it.side)
+        if z3_check(s, st, 300000) != "sat":
+            raise HarnessError(f"vacuity check of get_possible_factor_sizes N={N}")
+        st.vacuity_ok += 1
+        wrong = []
+        if not imperfect:
+            for x in range(1, N + 1):
+                wrong.append(res.member(x) != z3.And(x % inner == 0, n % x == 0))
+            label = f"get_possible_factor_sizes(n, False, {inner}): member(x) <=> {inner} | x and x | n, n in 1..{N} (multiples of {inner})"
+        else:
+            for sv in range(inner, N + 1, inner):
+                t = z3.Int(f"t{sv}")
+                m_ = z3.Int(f"m{sv}")
+                s.add(z3.And((t - 1) * sv < n, n <= t * sv, t >= 1, t <= N, I.ceil_constraint(m_, n, t, N)))
+                wrong.append(z3.And(sv <= n, z3.Not(res.member(m_))))
+            for g, v in res.items:
+                if I.is_sym(v):
+                    wrong.append(z3.And(I.zbool(g), v > n))
+            wrong.append(z3.Not(res.member(n)))
+            label = (f"get_possible_factor_sizes(n, True, {inner}): for every multiple s of {inner} up to n the smallest shape with ceil(n/s) tiles is present, "
+                     f"n itself is present, all members <= n, n in 1..{N} (multiples of {inner})")
+        s.push()
+        s.add(z3.Not(res.member(n)) if not imperfect else res.member(n + 1))      # seeded wrong expectations must differ in verdict
+        rv = z3_check(s, st, 120000)
+        if rv != "unsat":
+            raise HarnessError(f"get_possible_factor_sizes: 'n is a member / n+1 is not' not established ({rv})")
+        st.mutants_refuted += 1
+        s.pop()
+        s.add(z3.Or(wrong))
+        r = z3_check(s, st, 900000)
+        count_obligation(st, r, label)
+        st.sample({"obligation": label, "guarded_elements": len(res.items), "unwinding_queries": it.n_feas})
+        if r == "sat":
+            nv = s.model()[n].as_long()
+            got = [int(x) for x in getattr(f, "__wrapped__", f)(nv, imperfect, inner)]
+            if not imperfect:
+                exp = [x for x in range(1, nv + 1) if x % inner == 0 and nv % x == 0]
+                bad = got != exp
+            else:
+                exp = sorted({-(-nv // (-(-nv // sv))) for sv in range(inner, nv + 1, inner)} | {nv})
+                bad = any(x > nv for x in got) or any(x not in got for x in exp)
+            st.replays += 1
+            if not bad:
+                raise HarnessError(f"get_possible_factor_sizes model does not reproduce at n={nv}: {got}")
+            viol.append(dict(property=PID, function="get_possible_factor_sizes", n=nv, imperfect=imperfect, inner=inner, got=got, expected=exp,
+                             what=f"get_possible_factor_sizes({nv}, {imperfect}, {inner}) = {got}, expected {'a superset of ' if imperfect else ''}{exp}"))
     else:
         pattern = arg
         n, it = run_symbolic("_count_factorizations", N, (pattern,))
@@ -195,6 +268,10 @@ def run(args):
     quick = args.tier == "quick"
     N = 64 if quick else 256
     payloads = [("_factorize", N, None), ("_divisors", 48 if quick else 128, None), ("_factorize_imperfect", 36 if quick else 100, None)]
+    for inner in (1, 2, 3, 4):
+        payloads.append(("gpfs", 48 if quick else 96, (False, inner)))
+    for inner, Nq, Nt in ((1, 24, 36), (2, 36, 48), (3, 36, 60), (4, 48, 64)):
+        payloads.append(("gpfs", Nq if quick else Nt, (True, inner)))
     Lmax, Nc = (3, 10) if quick else (4, 14)
     for L in range(2, Lmax + 1):
         for pat in itertools.product([False, True], repeat=L):
@@ -207,11 +284,12 @@ def run(args):
         violations.extend(r["violations"])
     return finish(
         PID, args.tier, "model_checking", stats, t0, violations[:5], [],
-        functions_encoded=["make_tile_shapes._factorize", "make_tile_shapes._factorize_imperfect", "_mathfuncs._divisors", "_mathfuncs._count_factorizations"],
+        functions_encoded=["make_tile_shapes._factorize", "make_tile_shapes._factorize_imperfect", "make_tile_shapes.get_possible_factor_sizes (incl. nested _try_admit)",
+                           "_mathfuncs._divisors", "_mathfuncs._count_factorizations"],
         bounds=dict(_factorize=f"n in 1..{N}", _divisors=f"n in 1..{48 if quick else 128}", _factorize_imperfect=f"n in 1..{36 if quick else 100}",
                     _count_factorizations=f"n in 1..{Nc} (1..9 for length 4), every perfect/imperfect pattern of length 2..{Lmax}",
-                    outside="get_possible_factor_sizes itself (coarseness filter, imperfect admit loop): validated concretely only "
-                            f"(outer <= {160 if quick else 600}, every inner divisor); sizes beyond the bounds; coarseness != 1"),
+                    get_possible_factor_sizes="perfect: n in 1..%d, inner in 1..4; imperfect: (inner, n<=) in %s" % (48 if quick else 96, [(1, 24 if quick else 36), (2, 36 if quick else 48), (3, 36 if quick else 60), (4, 48 if quick else 64)]),
+                    outside="coarseness != 1; inner sizes that do not divide the outer size; sizes beyond the bounds"),
         assumptions=["math.ceil(n**0.5) == the integer r with (r-1)^2 < n <= r^2; math.ceil(a/b) == the integer c with (c-1)*b < a <= c*b (float exactness below 2^52)",
                      "oset/sorted/np.array keep the element set (membership is what is specified)"],
         rule="one obligation per function (and per loop pattern for the counter); distinct by that",
